@@ -1,6 +1,9 @@
 //! Defines helper functions to guarantee unqiue and valid Rust identifiers as they cannot always match the XML names
 
+#[cfg(not(feature = "xsg_verif"))]
 use std::collections::HashMap;
+#[cfg(feature = "xsg_verif")]
+use crate::verif::HashMap;
 
 use crate::Element;
 use convert_string::ConvertString;
